@@ -2,6 +2,7 @@
 package props
 
 import (
+	"sync/atomic"
 	"encoding/json"
 	"fmt"
 	"regexp"
@@ -225,6 +226,50 @@ func hostileSecondVersion(v *fx.Version, genesis uint64) *fx.Client {
 	c := fx.NewClient(v, fx.NewVersion(hostile, nil))
 	c.SetCurrent(v)
 	return c
+}
+
+// wideGrid: anchoring coordinates that need the full width of uint64 (differences of 2^63 and more between times and between
+// numbers): ordering is by the unsigned values.
+var wideGrid = []Coord{{1, 0}, {1, 1<<63 | 1}, {1<<63 + 5, 0}, {1<<63 + 5, 3}, {1<<64 - 2, 1}}
+
+// flakyClient fails exactly the failAt-th protocol-version lookup (counted over the client's life) and serves all others.
+type flakyClient struct {
+	protocol.Client
+	failAt int
+	n      *int32
+}
+
+func (c flakyClient) Get(t uint64) (protocol.Version, error) {
+	if int(atomic.AddInt32(c.n, 1)) == c.failAt {
+		return nil, fmt.Errorf("injected protocol-version lookup failure #%d", c.failAt)
+	}
+	return c.Client.Get(t)
+}
+
+// flakySweep resolves the placements once for every k in 1..maxK with the k-th protocol-version lookup of that resolution
+// failing. A failed lookup makes ONE operation uninterpretable for one step; the result must therefore be an error or the
+// fault-free result of the history with at most one operation left out (allowed), whatever the lookup position.
+func flakySweep(r *hx.Run, class, caseID string, client protocol.Client, suffix string, all []fx.Placed, allowed map[Result]bool, maxK int) {
+	for k := 1; k <= maxK; k++ {
+		var n int32
+		rm, err := ResolveImpl(flakyClient{client, k, &n}, suffix, all)
+		r.Eval()
+		if int(n) < k {
+			break // fewer lookups than k: later positions change nothing
+		}
+		got := ProjectImpl(rm, err)
+		if got.Err || allowed[got] {
+			continue
+		}
+		var al []string
+		for a := range allowed {
+			al = append(al, a.String())
+		}
+		sort.Strings(al)
+		r.Violation(class, fmt.Sprintf("%s|lookup#%d", caseID, k),
+			fmt.Sprintf("history %v with protocol-version lookup #%d of the resolution failing once: the result is neither an error nor the result of the history with at most one operation left out\n  got    : %s\n  allowed: %s", placedDesc(all), k, got, strings.Join(al, "\n           ")), nil)
+		return
+	}
 }
 
 // versionFailClient is a protocol client whose lookup fails for one protocol version (a version this node does not know).
